@@ -183,14 +183,18 @@ def instances(tier):
     quick = tier == 'quick'
     out.append({'func': 'h_const', 'params': {'n': [2, 2], 'zeros_': None, 'keep': None}})
     out.append({'func': 'h_const', 'params': {'n': [2, 3, 2], 'zeros_': None, 'keep': None}})
-    shapes = [[2, 2], [2, 3]] if quick else [[2, 2], [2, 3], [2, 2, 2], [3, 2, 2]]
+    shapes = [[2, 2], [2, 3], [2, 2, 2]] if quick else [[2, 2], [2, 3], [2, 2, 2], [3, 2, 2], [3, 3, 3]]
     for n in shapes:
         idx = multi_indices(n)
         lists = [[list(idx[0])], [list(idx[-1]), list(idx[0])], [list(idx[1]), list(idx[2]), list(idx[-1])]]
         if not quick:
             lists += [[list(i) for i in idx[:4]], [list(idx[0])] * 2]
+        if len(n) >= 3:
+            # a zero index that agrees with the protected index in one mode and differs in another mode of the same size
+            lists.append([[1, 0, 1]])
         for zl in lists:
-            for keep in [None] + [list(k) for k in idx if list(k) not in zl][:(2 if quick else 4)]:
+            keeps = [list(k) for k in idx if list(k) not in zl]
+            for keep in [None] + keeps[:(2 if quick else 4)] + ([[0, 1, 0]] if len(n) >= 3 and [0, 1, 0] in keeps else []):
                 out.append({'func': 'h_const', 'params': {'n': n, 'zeros_': zl, 'keep': keep}})
         out.append({'func': 'h_const_conflict', 'params': {'n': n, 'zeros_': [list(idx[1])], 'keep': list(idx[1])}})
     for n, i in [([2, 3], [1, 2]), ([2, 3], [-1, 0]), ([2, 2, 3], [0, -1, -2]), ([1, 2], [0, 1])]:
